@@ -219,6 +219,11 @@ func verifClientPushPeek[T any](h Heap[T], v T) {
 //@   after call New[0]: ghost callresult.indexChanged.tracks := true
 //@   ensures pqInv(result) && fresh(result.inner) && fresh(result.m)
 //@   ensures forall t int {old(initial[t])} :: 0 <= t && t < len(initial) ==> inHeap(result, old(initial[t]).K)
+// the notification callback handed to the heap (function literal 1), verified on its own: it records index i for key x.K
+// and touches no other entry - the map update that the ghost N of the heap contract mirrors
+//@   closure 1: requires h.m != nil
+//@   closure 1: ensures has(h.m, x.K) && h.m[x.K] == i
+//@   closure 1: ensures forall k K {has(h.m, k)} :: k != x.K ==> (has(h.m, k) <==> old(has(h.m, k))) && (has(h.m, k) ==> h.m[k] == old(h.m[k]))
 
 // Iterate: a Map (projection to the key) over the heap's own snapshot-or-panic iterator; the
 // behaviour under modification is that of heap.heapIterator.Next (proved in internal/heap) seen
